@@ -114,6 +114,15 @@ var qualifiedMap = map[string]string{
 	"os.Hostname":          "Hostname",
 	"sync.Pool":            "Pool",
 	"sync.Map":             "Map",
+	"sync.Cond":            "Cond",
+	"sync.NewCond":         "NewCond",
+	"time.After":           "After",
+	"time.NewTimer":        "NewTimer",
+	"time.AfterFunc":       "AfterFunc",
+	"time.NewTicker":       "NewTicker",
+	"time.Tick":            "Tick",
+	"time.Timer":           "Timer",
+	"time.Ticker":          "Ticker",
 	"time.Now":             "Now",
 	"time.Since":           "Since",
 	"time.Sleep":           "Sleep",
@@ -123,9 +132,9 @@ var qualifiedMap = map[string]string{
 var atomicTypes = map[string]bool{"Value": true, "Bool": true, "Int32": true, "Int64": true, "Uint32": true, "Uint64": true, "Uintptr": true, "Pointer": true}
 
 var forbidden = map[string]bool{
-	"sync.Cond": true, "sync.NewCond": true,
+
 	"sync.OnceFunc": true, "sync.OnceValue": true, "sync.OnceValues": true,
-	"time.NewTimer": true, "time.NewTicker": true, "time.After": true, "time.AfterFunc": true, "time.Tick": true,
+
 	"net.DialTimeout": true, "net.Listen": true, "net.DialTCP": true,
 	"context.WithCancelCause": true, "context.WithTimeoutCause": true, "context.WithDeadlineCause": true,
 	"context.AfterFunc": true, "context.WithoutCancel": true,
@@ -167,8 +176,18 @@ func (r *rewriter) mutexMethod(call *ast.CallExpr) (fn string, ptr ast.Expr, col
 		prefix = "Mutex"
 	case "RWMutex":
 		prefix = "RW"
-	case "Pool", "Map":
-		// sync.Pool and sync.Map are replaced as types by simrt.Pool / simrt.Map, which have the same methods
+	case "Pool", "Map", "Cond":
+		// sync.Pool, sync.Map and sync.Cond are replaced as types by simrt.Pool / Map / Cond, which have the same methods
+		return
+	case "Locker":
+		// a mutex behind the sync.Locker interface (e.g. a Cond's L): resolved at run time
+		switch m.Name() {
+		case "Lock":
+			return "LockerLock", sel.X, false, true
+		case "Unlock":
+			return "LockerUnlock", sel.X, false, true
+		}
+		r.errorf(call.Pos(), "sync.Locker.%s is not modelled", m.Name())
 		return
 	case "Once", "WaitGroup":
 		want := map[string]string{"Once.Do": "OnceDo", "WaitGroup.Add": "WGAdd", "WaitGroup.Done": "WGDone", "WaitGroup.Wait": "WGWait"}
@@ -244,7 +263,11 @@ func isPoolMethod(m *types.Func) bool {
 	if recv == nil {
 		return false
 	}
-	return typeName(recv.Type()) == "sync.Pool" || typeName(recv.Type()) == "sync.Map"
+	switch typeName(recv.Type()) {
+	case "sync.Pool", "sync.Map", "sync.Cond":
+		return true
+	}
+	return false
 }
 
 func typeName(t types.Type) string {
